@@ -23,7 +23,9 @@ RULE = ('(a) seeded histories of opens (accepted / rejected by every handler '
         'systematic PAIRS of end causes issued at the same virtual instant in '
         'both orders on every transport mode (fault enumeration: 6 causes x 6 '
         'causes x 3 modes x 2 servers, threaded side under several '
-        'schedules); (c) the same pairs on the OS-thread backend with seeded '
+        'schedules, plus stateless DFS over ALL cooperative schedules of each '
+        'pair up to a leaf bound, evidence says how many trees were exhausted); '
+        '(c) the same pairs on the OS-thread backend with seeded '
         'line-level pre-emption inside close/poll/send/receive/disconnect '
         '(models async_mode=threading). distinct = distinct (server, mode, cause-set, winning '
         'reason) signatures')
@@ -44,7 +46,7 @@ ASSUMPTIONS = ['handlers take (sid, reason), or - in a seeded share of the '
                'pre-emption)']
 REQUIRED = ['automaton', 'reason_ledger', 'exactly_one_disconnect',
             'after_end_probes', 'cause_pairs', 'handler_exception_contained',
-            'preempt_pairs', 'preemptions']
+            'preempt_pairs', 'preemptions', 'dfs_leaves']
 SHARD_TIMEOUT = {'quick': 500, 'thorough': 3400}
 
 TIMEOUT_REASONS = {'ping timeout', 'transport close', 'transport error'}
@@ -427,6 +429,63 @@ def run_pair(rec, case):
         sim.teardown()
 
 
+def run_pair_dfs(rec, case):
+    """All cooperative schedules (bounded number of leaves; optionally with a
+    bounded number of yields at signalling operations) of one pair of end
+    causes issued at the same instant on the threaded server."""
+    mode, c1, c2 = case['mode'], case['c1'], case['c2']
+    pi, pt = 4, 2
+    outcomes = set()
+
+    def leaf(prefix):
+        sim = scen.make_sim('T', server_kwargs={'ping_interval': pi,
+                                                'ping_timeout': pt},
+                            policy='fifo', prefix=prefix,
+                            yield_prob=1.0 if case.get('yields') else 0.0)
+        sim.sched.yield_budget = case.get('yields') or 0
+        R = hist.Runner(sim)
+
+        def V(key, msg):
+            rec.viol(key, msg + ' | PAIR-DFS mode=%s causes=(%s,%s) yields<=%s'
+                     ' schedule prefix=%r history=%s' % (
+                         mode, c1, c2, case.get('yields', 0), prefix,
+                         R.witness(20)), dict(case, prefix=list(prefix)))
+        try:
+            s = R.open('websocket' if mode == 'websocket' else 'polling',
+                       autopoll=True, autopong=None if 'timeout' in (c1, c2)
+                       else 0)
+            if 'timeout' in (c1, c2):
+                R.causes.append({'s': s.n, 'cause': 'silence',
+                                 'c_start': s.h.open_ticket.c_start,
+                                 't': 0.0})
+            if mode == 'upgraded':
+                R.upgrade_start(s, 'correct')
+                sim.quiesce()
+            sim.advance(pi + pt + 0.001 if 'timeout' in (c1, c2) else 1)
+            n0 = len(sim.sched.trace)
+            ok1 = apply_cause(R, s, c1, pi, pt)
+            ok2 = apply_cause(R, s, c2, pi, pt)
+            if ok1 and ok2:
+                sim.quiesce()
+                # the enumeration covers the racing part; the tail (silence,
+                # probes of the dead id) follows the same forced prefix and
+                # then the canonical order
+                final_phase(rec, sim, R, V, pi, pt)
+                automaton(rec, sim, R, V, True, pi, pt)
+                d = R.disconnects(s)
+                outcomes.add(d[0]['reason'] if d else '-')
+            rec.evaluations += 1
+            return list(sim.sched.trace)
+        finally:
+            sim.teardown()
+    leaves, done = scen.dfs_schedules(leaf, case['limit'])
+    rec.count('dfs_leaves', leaves)
+    rec.count('dfs_trees')
+    if done:
+        rec.count('dfs_trees_exhausted')
+    rec.key('dfs/%s/%s/%s/%s' % (mode, c1, c2, '|'.join(sorted(outcomes))))
+
+
 def run_pair_preempt(rec, case):
     """The pair scenario on the OS-thread backend with line-level
     pre-emption inside the functions named in vf/preempt.py (models
@@ -504,7 +563,9 @@ def run_pair_preempt(rec, case):
 
 
 def dispatch(rec, case):
-    if case.get('preempt'):
+    if case.get('dfs'):
+        run_pair_dfs(rec, case)
+    elif case.get('preempt'):
         run_pair_preempt(rec, case)
     elif case.get('pair'):
         run_pair(rec, case)
@@ -531,6 +592,19 @@ def plan(tier, seed):
                                               seed * 1000 if sc else 0)})
     for i in range(4):
         shards.append({'pairs': pairs[i::4]})
+    # stateless DFS over the cooperative schedules of every cause pair
+    dfs = []
+    for mode in ('polling', 'websocket', 'upgraded'):
+        for c1 in CAUSES:
+            for c2 in CAUSES:
+                dfs.append({'dfs': True, 'mode': mode, 'c1': c1, 'c2': c2,
+                            'limit': 2500 if tier == 'thorough' else 25})
+                if tier == 'thorough':
+                    dfs.append({'dfs': True, 'mode': mode, 'c1': c1, 'c2': c2,
+                                'yields': 1, 'limit': 2500})
+    kd = 8 if tier == 'thorough' else 2
+    for i in range(kd):
+        shards.append({'pairs': dfs[i::kd]})
     # pre-emptive tier (OS-thread backend, line-level pre-emption)
     pre = []
     pseeds = range(1, 4) if tier == 'quick' else range(1, 80)
